@@ -90,6 +90,12 @@ func fromObj(o *proxyv1alpha1.RateLimitCondition) CondJ {
 	return c
 }
 
+// pointJ is a crash point: the API after a call and the object somebody else removed while it was served.
+type pointJ struct {
+	Api []CondJ `json:"api"`
+	Ext *string `json:"ext"`
+}
+
 type callRec struct {
 	Kind string // update | create | get | delete | list
 	Name string // plain
@@ -105,7 +111,7 @@ type sim struct {
 	pos     int
 	nextRv  int
 	calls   int
-	snaps   [][]CondJ // tracker contents after every call
+	snaps   []pointJ // tracker contents after every call
 	log     []callRec
 	crashAt int // the goroutine making call number crashAt (0-based) dies instead; -1: never
 	crashed bool
@@ -170,10 +176,18 @@ func (s *sim) enter(kind, name string) (fault string) {
 	return fault
 }
 
+// vanish plays an injected NotFound on a call that addresses an object: the API does not lie, somebody else
+// has just removed the object; the call is then served on what is left.
+func (s *sim) vanish(name string) *string {
+	_ = s.inner.Delete(context.Background(), name, metav1.DeleteOptions{})
+	h := rig.Hex(name)
+	return &h
+}
+
 // leave records the call and the crash point, and releases s.mu.
-func (s *sim) leave(kind, name string, obj *CondJ, err error) {
+func (s *sim) leave(kind, name string, obj *CondJ, err error, ext *string) {
 	s.calls++
-	s.snaps = append(s.snaps, s.contents())
+	s.snaps = append(s.snaps, pointJ{Api: s.contents(), Ext: ext})
 	s.log = append(s.log, callRec{Kind: kind, Name: name, Obj: obj, Res: classify(err)})
 	s.mu.Unlock()
 }
@@ -209,14 +223,22 @@ type conds struct {
 var errEmptyName = fmt.Errorf("resource name may not be empty") // rest.Request.Name("")
 
 func (c *conds) Update(ctx context.Context, o *proxyv1alpha1.RateLimitCondition, opts metav1.UpdateOptions) (*proxyv1alpha1.RateLimitCondition, error) {
+	s := c.s
+	sent := fromObj(o)
 	if o.Name == "" {
+		// visible to the order hint only: not a call, no script entry, no crash point
+		s.mu.Lock()
+		s.log = append(s.log, callRec{Kind: "update", Name: "", Obj: &sent, Res: "rejected"})
+		s.mu.Unlock()
 		return &proxyv1alpha1.RateLimitCondition{}, errEmptyName
 	}
-	s := c.s
 	fault := s.enter("update", o.Name)
-	sent := fromObj(o)
 	var res *proxyv1alpha1.RateLimitCondition
 	var err error
+	var ext *string
+	if fault == "notFound" {
+		ext, fault = s.vanish(o.Name), "ok"
+	}
 	if fault == "ok" || fault == "lost" {
 		old, gerr := s.inner.Get(ctx, o.Name, metav1.GetOptions{})
 		switch {
@@ -231,7 +253,7 @@ func (c *conds) Update(ctx context.Context, o *proxyv1alpha1.RateLimitCondition,
 	if fault != "ok" {
 		err = injected(fault, o.Name)
 	}
-	s.leave("update", o.Name, &sent, err)
+	s.leave("update", o.Name, &sent, err, ext)
 	if err != nil {
 		return &proxyv1alpha1.RateLimitCondition{}, err
 	}
@@ -256,7 +278,7 @@ func (c *conds) Create(ctx context.Context, o *proxyv1alpha1.RateLimitCondition,
 	if fault != "ok" {
 		err = injected(fault, o.Name)
 	}
-	s.leave("create", o.Name, &sent, err)
+	s.leave("create", o.Name, &sent, err, nil)
 	if err != nil {
 		return &proxyv1alpha1.RateLimitCondition{}, err
 	}
@@ -271,12 +293,16 @@ func (c *conds) Get(ctx context.Context, name string, opts metav1.GetOptions) (*
 	fault := s.enter("get", name)
 	var res *proxyv1alpha1.RateLimitCondition
 	var err error
+	var ext *string
+	if fault == "notFound" {
+		ext, fault = s.vanish(name), "ok"
+	}
 	if fault == "ok" {
 		res, err = s.inner.Get(ctx, name, opts)
 	} else {
 		err = injected(fault, name)
 	}
-	s.leave("get", name, nil, err)
+	s.leave("get", name, nil, err, ext)
 	if err != nil {
 		return &proxyv1alpha1.RateLimitCondition{}, err
 	}
@@ -284,19 +310,26 @@ func (c *conds) Get(ctx context.Context, name string, opts metav1.GetOptions) (*
 }
 
 func (c *conds) Delete(ctx context.Context, name string, opts metav1.DeleteOptions) error {
+	s := c.s
 	if name == "" {
+		s.mu.Lock()
+		s.log = append(s.log, callRec{Kind: "delete", Name: "", Res: "rejected"})
+		s.mu.Unlock()
 		return errEmptyName
 	}
-	s := c.s
 	fault := s.enter("delete", name)
 	var err error
+	var ext *string
+	if fault == "notFound" {
+		ext, fault = s.vanish(name), "ok"
+	}
 	if fault == "ok" || fault == "lost" {
 		err = s.inner.Delete(ctx, name, opts)
 	}
 	if fault != "ok" {
 		err = injected(fault, name)
 	}
-	s.leave("delete", name, nil, err)
+	s.leave("delete", name, nil, err, ext)
 	return err
 }
 
@@ -310,7 +343,7 @@ func (c *conds) List(ctx context.Context, opts metav1.ListOptions) (*proxyv1alph
 	} else {
 		err = injected(fault, "")
 	}
-	s.leave("list", "", nil, err)
+	s.leave("list", "", nil, err, nil)
 	if err != nil {
 		return &proxyv1alpha1.RateLimitConditionList{}, err
 	}
